@@ -81,6 +81,14 @@ func savePlan(o *batchOut, plan *Plan, tag string) string {
 	return path
 }
 
+// run executes a Plan with the check's executor.
+func run(t *testing.T, def *CheckDef, plan *Plan, keep bool) (*RunResult, *Exec) {
+	if def.Exec != nil {
+		return def.Exec(t, plan), nil
+	}
+	return Execute(t, plan, def.Oracle, def.Final, keep)
+}
+
 func TestEngine(t *testing.T) {
 	mode := os.Getenv("VERIF_MODE")
 	if mode == "" {
@@ -112,7 +120,7 @@ func TestEngine(t *testing.T) {
 				pf := savePlan(out, plan, "-race")
 				fmt.Fprintf(os.Stderr, "RACE-START %d %s\n", i, pf)
 			}
-			res, _ := Execute(t, plan, def.Oracle, def.Final, false)
+			res, _ := run(t, def, plan, false)
 			if os.Getenv("VERIF_RACE") != "" {
 				fmt.Fprintf(os.Stderr, "RACE-END %d\n", i)
 			}
@@ -144,7 +152,7 @@ func TestEngine(t *testing.T) {
 		if def == nil {
 			t.Fatalf("unknown check %q in plan", plan.Check)
 		}
-		res, ex := Execute(t, plan, def.Oracle, def.Final, true)
+		res, ex := run(t, def, plan, true)
 		if os.Getenv("VERIF_TRACE") != "" && ex != nil {
 			for _, l := range ex.Sim.EvLines {
 				fmt.Println(l)
@@ -171,7 +179,7 @@ func TestEngine(t *testing.T) {
 		// determinism self-test: print the event-log hash of every index
 		for i := from; i < to; i++ {
 			plan := def.Gen(seed, i, tier)
-			res, _ := Execute(t, plan, def.Oracle, def.Final, false)
+			res, _ := run(t, def, plan, false)
 			sigs := []string{}
 			for _, v := range res.Violations {
 				sigs = append(sigs, v.Signature())
